@@ -530,6 +530,43 @@ def unit_provenance(ctx):
     _state_ok(ctx, f, f"values-from-{src}", ctx.key())
 
 
+def unit_long_mesh(ctx):
+    """meshes with 2^16 and 2^17 cells, one more and one fewer: whatever is computed in blocks, EVERY cell has its Euclidean
+    length as norm, unit length as orientation, and the requested length after the norm is set (the last cells included)"""
+    ncell = ctx.choose("cells", [65535, 65536, 65537, 131073, 70000])
+    layout = ctx.choose("layout", ["1-d", "3-d (n, 1, 1)", "2-d (1, n)"])
+    d = ctx.choose("nvdim", [3, 1])
+    n = {"1-d": (ncell,), "3-d (n, 1, 1)": (ncell, 1, 1), "2-d (1, n)": (1, ncell)}[layout]
+    mesh = df.Mesh(region=df.Region(p1=[0.0] * len(n), p2=[float(k) for k in n]), n=n)
+    idx = np.arange(ncell, dtype=float).reshape(n)
+    arr = np.stack([(idx % 7) - 3.0 + 0.5 * c for c in range(d)], axis=-1)   # no zero vector for d = 3; zeros for d = 1? no: +-0.5 steps
+    arr[..., 0] = np.where(np.abs(arr).sum(axis=-1) == 0, 1.0, arr[..., 0])
+    f = df.Field(mesh, nvdim=d, value=arr.copy(), unit="A/m")
+    ref = np.sqrt(np.sum(arr * arr, axis=-1))
+    inst = ctx.key()
+    ctx.step(1, "norm")
+    got = np.asarray(f.norm.array)[..., 0]
+    ctx.check()
+    if got.shape != ref.shape or C.gt(np.abs(got - ref), 1e-12 * ref):
+        bad = np.argwhere(~(np.abs(got - ref) <= 1e-12 * ref)) if got.shape == ref.shape else []
+        ctx.fail("Field.norm/long-mesh/not-the-euclidean-length", f"n={n}: {len(bad)} cells wrong, first {bad[0].tolist() if len(bad) else '?'} "
+                 f"(got {got[tuple(bad[0])] if len(bad) else '?'}, length {ref[tuple(bad[0])] if len(bad) else '?'})", instance=inst)
+        return
+    ctx.step(1, "orientation")
+    o = np.asarray(f.orientation.array)
+    ctx.check()
+    if C.gt(np.abs(np.sqrt(np.sum(o * o, axis=-1)) - 1.0), 1e-12):
+        ctx.fail("Field.orientation/long-mesh/not-unit-length", f"n={n}", instance=inst)
+        return
+    ctx.step(1, "norm = 2.5")
+    f.norm = 2.5
+    a2 = np.asarray(f.array)
+    ctx.check()
+    ctx.observe(n, d)
+    if C.gt(np.abs(np.sqrt(np.sum(a2 * a2, axis=-1)) - 2.5), 1e-12 * 2.5) or C.gt(np.abs(a2 * ref[..., None] - 2.5 * arr), 1e-11 * np.abs(arr).max()):
+        ctx.fail("Field.norm-set/long-mesh/length-or-direction-wrong", f"n={n}", instance=inst)
+
+
 def units(tier):
     return [
         {"name": "set", "fn": unit_set, "bound": None},
@@ -537,4 +574,5 @@ def units(tier):
         {"name": "get_int", "fn": unit_get_int, "bound": None},
         {"name": "reuse", "fn": unit_reuse, "bound": None},
         {"name": "provenance", "fn": unit_provenance, "bound": None},
+        {"name": "long_mesh", "fn": unit_long_mesh, "bound": None},
     ]
